@@ -31,8 +31,10 @@ def assumptions(variant, wform="blind", sform="pinned"):
             "the acceptor at `D return`; what happens after exit() was called (atexit/stdio flush racing with other "
             "threads) is a runtime behaviour outside model and harness",
             "fanout >= 1, -k off, pthread_create and rcmd_create succeed, the clock is past INTR_TIME at start, every "
-            "command ends; connect/command timeouts off for everything that is compared with the LTS (C07 owns the "
-            "watchdog's clock; the runs with -u of class timeouts/every-position are judged by the monitors only)",
+            "command ends; connect/command timeouts off except in class timeouts/every-position (-u 2), whose runs are "
+            "also followed by the LTS: it has the watchdog's lock / kill / unlock of thd_mutex and the read loop that is "
+            "given up (W.lockTF, result DSH_FAILED) but not the watchdog's clock - when a time-out fires is the "
+            "schedule's choice (C07 owns the deadlines)",
             "stdio: per-call atomicity (a call locks the FILE, copies, unlocks) is the modelled guarantee of the product "
             "model Dsh/SignalsOutput.lean; the check compares where dsh.c makes its stdio calls with the model's `emits`",
             "wait-for-room construct of the checked tree, detected by behaviour: %s (the C20 theorems hold for both)" % variant]
@@ -142,7 +144,7 @@ def replay_case(ctx, exe, variant, wform, sform):
     res = sched.run_case(exe, case, ctx.scratch)
     b = sched.run_case(exe, dict(case, strategy="uniform", choices=[], signals=[]), ctx.scratch)
     _, bf = offenders(b, None)
-    offs, facts = offenders(res, (b["M"], bf["A"]) if b["M"] and "A" in bf else None)
+    offs, facts = offenders(res, (b["M"], bf["A"]) if b["M"] and "A" in bf and not timed(case) else None)
     if res["crash"] is None and not res["bug"] and facts["domain"]:
         bad = accept_all(ctx, [project_sig(res, variant, wform, sform)])[0]
         if bad is not None:
@@ -174,8 +176,8 @@ def run(ctx, PROPS, LEVEL):
                    "(1 = exactly INTR_TIME), signals around every step of the shutdown tail, each with every signal plan, "
                    "with and without -b; (a3) ^C then ^C / ^Z with the first at every position and the second at every "
                    "distance on two tiny configurations; (a4) -u 2 with a hanging, a slow and a pending host: a signal at "
-                   "every position while the watchdog times hosts out (monitors only: the LTS has no clock for the "
-                   "watchdog); (b) exhaustive: state-hashed DFS over ALL schedules x ALL "
+                   "every position while the watchdog times hosts out (the LTS follows: lock / kill / unlock of the "
+                   "watchdog, read loop given up = W.lockTF); (b) exhaustive: state-hashed DFS over ALL schedules x ALL "
                    "delivery points x clock ticks of tiny configurations (distribution.dfs); (c) every position: for "
                    "each small configuration (N<=3) and base schedule the first signal of each plan (INT, INT-INT, "
                    "INT-TSTP, TSTP; with and without -b) is delivered at EVERY step of the trace, the second at a set of "
@@ -248,10 +250,9 @@ def run(ctx, PROPS, LEVEL):
                 ok = False
                 dist["out_of_domain"] += 1
             doms.append(ok)
-        # (runs with a connect / command time-out are judged by the monitors only: the LTS has the watchdog's mutex
-        #  discipline, not its clock)
-        batches = [project_sig(r, variant, wform, sform) if ok and not timed(r["case"]) else None
-                   for r, ok in zip(results, doms)]
+        # (runs with a command time-out are followed by the LTS too: the watchdog's lock / kill / unlock and the read loop
+        #  that is given up - `W.lockTF`, result DSH_FAILED - are in it; WHEN the watchdog acts is left to the schedule)
+        batches = [project_sig(r, variant, wform, sform) if ok else None for r, ok in zip(results, doms)]
         idx = [i for i, b in enumerate(batches) if b is not None]
         verdicts = accept_all(ctx, [batches[i] for i in idx]) if idx else []
         for i, bad in zip(idx, verdicts):
